@@ -1,7 +1,7 @@
 (** C12 — version and msize negotiation.  Only statements, each closed by [exact]
     of a lemma proved in Fs/VersionProofs.v, followed by Print Assumptions. *)
 From Coq Require Import NArith String List.
-From P9V Require Import Base.Str gen.ConstGen Fs.Version Fs.VersionProofs.
+From P9V Require Import Base.Str gen.ConstGen Fs.Version Fs.VersionProofs Fs.VersionDigits.
 Import ListNotations.
 Open Scope string_scope.
 Open Scope N_scope.
@@ -39,6 +39,11 @@ Theorem C12_other_dialects : forall s b n,
   parse_version s = Some (b, n) -> b <> V9P2000L -> n = 0 /\ s = base_string b.
 Proof. exact parse_version_bases. Qed.
 Print Assumptions C12_other_dialects.
+
+(** the decimal part, read elementarily: non-empty, digits '0'..'9' only, left-to-right value, below 2^32 *)
+Theorem C12_number_is_digits : forall d, parse_uint32 d = parse_uint32_spec d.
+Proof. exact parse_uint32_is_spec. Qed.
+Print Assumptions C12_number_is_digits.
 
 Theorem C12_number_range : forall d n, parse_uint32 d = Some n -> n < 4294967296.
 Proof. exact parse_uint32_range. Qed.
